@@ -272,3 +272,94 @@ Section RunAgree.
       intros q Hq. rewrite exec_fs_not_sum by exact Hq. rewrite Hs1. reflexivity.
   Qed.
 End RunAgree.
+
+(* ---------- C08's "skipped only if", OF Pipeline.exec ---------- *)
+
+(* a canonical SumCache world for a loaded pipeline world: the directory of a package is named by its path, the
+   hash function answers what the loader recorded (None where it recorded "") *)
+Section Canonical.
+  Variable w : world.
+  Definition can_H (path : bytes) : option bytes :=
+    match find_pkg w path with
+    | Some p => if is_nil (pk_hash p) then None else Some (pk_hash p)
+    | None => None
+    end.
+  Definition can_dirc (_ : fs) (_ : option bytes) (path : bytes) : bytes := path.
+  Definition can_locals (_ : fs) (_ : list bytes) : list (bytes * bool) := world_locals w.
+
+  Lemma can_hash : NoDup (map pk_path (w_pkgs w)) -> forall s p, In p (w_pkgs w) ->
+    SumCache.hash_of fs bytes can_H can_dirc SumCache.fixed_all (abs_state w s) (pk_path p) = pk_hash p.
+  Proof.
+    intros Hnd s p Hin. unfold SumCache.hash_of, can_dirc, can_H. rewrite (find_pkg_in w p Hnd Hin).
+    destruct (pk_hash p); reflexivity.
+  Qed.
+End Canonical.
+
+Lemma nogens_done : forall E a w prev ps, (forall p, e_order E p [] = []) -> snd (run_pkgs E a w [] prev ps) = Done.
+Proof.
+  intros E a w prev ps Ho. induction ps as [|p r IH]; cbn [run_pkgs]; [reflexivity|].
+  destruct (selected a w p); [|exact IH].
+  unfold pkg_execute. destruct (pkg_changed a w prev p).
+  - unfold pkg_effects. cbn [gen_phase]. rewrite Ho. cbn [write_loop].
+    destruct (run_pkgs E a w [] prev r) as [[e2 t2] o2]. exact IH.
+  - destruct (run_pkgs E a w [] prev r) as [[e2 t2] o2]. exact IH.
+Qed.
+
+(* A package the pipeline leaves alone as cached (selected, not processed): All, no Force, gengo.sum is a file and the
+   hash it records for the package — read by the byte-level parser — is the package's load-time hash, which is not
+   empty.  Obtained from C08's theorem [run_skip_only_if] about SumCache.run through the agreement [run_agree]. *)
+Theorem pipeline_skip_only_if : forall E a w s p,
+  e_sum_load E = SumFile.sumfile_load ->
+  NoDup (map pk_path (w_pkgs w)) -> files_ok w ->
+  In p (w_pkgs w) -> selected a w p = true -> processed E a w s p = false ->
+  a_all a = true /\ a_force a = false /\
+  exists b, fs_lookup (sum_path w) s = Some b
+            /\ SumFile.sum_sum (SumFile.sumfile_load b) (pk_path p) = pk_hash p
+            /\ pk_hash p <> [].
+Proof.
+  intros E a w s p HloadE Hnd Hfiles Hin Hsel Hproc.
+  (* the decision does not depend on formatter, order or generators: run the agreement for a run without generators *)
+  set (E' := whole_env (fun _ => None) (fun _ l => l) []).
+  assert (Hproc' : processed E' a w s p = false).
+  { unfold processed, load_prev in *. rewrite HloadE in Hproc. exact Hproc. }
+  pose proof (run_agree E' a w [] eq_refl eq_refl bytes (can_H w) can_dirc (can_locals w) [] s eq_refl
+                (can_hash w Hnd s) Hnd Hfiles) as Hag.
+  cbv zeta in Hag.
+  set (ra := run_args E' a w [] [] s) in *.
+  set (r := SumCache.run fs bytes (can_H w) can_dirc (pkg_step E' a w []) (can_locals w) SumCache.fixed_all ra (abs_state w s)) in *.
+  destruct Hag as [_ [_ [Hek _]]].
+  assert (Hdone : exec_outcome E' a w [] s = Done) by (apply nogens_done; reflexivity).
+  apply Hek in Hdone.
+  (* the run reaches every package in scope *)
+  destruct (Gengo.Proofs.SumCache.run_visited_scope fs bytes (can_H w) can_dirc (pkg_step E' a w []) (can_locals w)
+              SumCache.fixed_all ra (abs_state w s)) as [rest [Hvis Hrest]].
+  fold r in Hvis, Hrest. rewrite Hrest in Hvis by (rewrite Hdone; discriminate). rewrite app_nil_r in Hvis.
+  assert (Hv : In (pk_path p) (SumCache.visited (fst (snd r)))).
+  { rewrite <- Hvis. unfold Gengo.Proofs.SumCache.run_loc. cbn [can_locals].
+    apply in_map_iff. exists (locf w p). split; [reflexivity|]. apply filter_In. split.
+    - eapply Permutation_in; [apply Permutation_sym, Gengo.Proofs.SumFile.sort_by_perm|].
+      unfold world_locals. apply in_map_iff. exists p. split; [reflexivity | exact Hin].
+    - unfold Gengo.Proofs.SumCache.in_scope. cbn [ra run_args SumCache.r_all locf snd]. exact Hsel. }
+  (* visited and not changed: skipped *)
+  assert (Hsk : In (pk_path p) (SumCache.skipped (fst (snd r)))).
+  { apply Gengo.Proofs.SumCache.visited_split in Hv. destruct Hv as [Hex|Hsk]; [|exact Hsk]. exfalso.
+    pose proof (Gengo.Proofs.SumCache.run_events_ok fs bytes (can_H w) can_dirc (pkg_step E' a w []) (can_locals w)
+                  SumCache.fixed_all ra (abs_state w s)) as Hok.
+    fold r in Hok. rewrite Forall_forall in Hok.
+    unfold Gengo.Proofs.SumCache.run_loc in Hok. cbn [can_locals] in Hok.
+    change (can_locals w (SumCache.st_tree (abs_state w s)) (SumCache.r_entry ra)) with (world_locals w) in Hok.
+    rewrite (cur_same w bytes (can_H w) can_dirc s (can_hash w Hnd s)) in Hok.
+    unfold ra in Hok at 2. rewrite (prev_same E' a w [] eq_refl [] s) in Hok.
+    unfold processed in Hproc'. rewrite Hsel in Hproc'. cbn [andb] in Hproc'.
+    apply Gengo.Proofs.SumCache.in_executed in Hex. destruct Hex as [Hex|Hex]; specialize (Hok _ Hex);
+      cbn [Gengo.Proofs.SumCache.ev_ok] in Hok; destruct Hok as [Hc _];
+      rewrite (changed_same a w ra _ p eq_refl) in Hc; congruence. }
+  destruct (Gengo.Proofs.SumCache.run_skip_only_if fs bytes (can_H w) can_dirc (pkg_step E' a w []) (can_locals w)
+              SumCache.fixed_all ra (abs_state w s) (pk_path p) Hsk) as [Hall [Hforce [b [Hb [Hrec Hne]]]]].
+  cbn [ra run_args SumCache.r_all SumCache.r_force] in Hall, Hforce.
+  split; [exact Hall|]. split; [exact Hforce|]. exists b.
+  cbn [abs_state SumCache.st_sum] in Hb. unfold sum_state in Hb.
+  destruct (fs_lookup (sum_path w) s) as [b'|]; [|discriminate Hb]. inversion Hb; subst b'.
+  rewrite (can_hash w Hnd s p Hin) in Hrec, Hne.
+  split; [reflexivity|]. split; [exact Hrec | apply Hne; reflexivity].
+Qed.
